@@ -766,6 +766,8 @@ def adapt_typehints(
 
     # Any
     if typehint == Any:
+        if isinstance(val, NestedArg):
+            raise_unexpected_value("Any does not define nested keys", val)
         type_val = type(val)
         if get_registered_type(type_val) or is_subclass(type_val, Enum):
             val = adapt_typehints(val, type_val, **adapt_kwargs)
